@@ -370,12 +370,15 @@ fn run_race(
     // trace lengths from solo runs
     let mut lens = [0usize; 2];
     let mut block_writes = [0usize; 2];
+    // number of operations after which an actor has just written its BANDHEAD (solo run)
+    let mut head_done = [0usize; 2];
     for (k, (src, opts)) in [(&src1, opts1), (&src2, opts2)].iter().enumerate() {
         let ctl = crate::hooks::Ctl::new(&w.arch, crate::hooks::Plan::None);
         let hook: ops::Hook = Some(ctl.clone() as std::sync::Arc<dyn conserve::transport::verif::Interceptor>);
         let _ = ops::backup(&w.arch, &hook, src, *opts, &[]);
         lens[k] = ctl.log().len();
         block_writes[k] = ctl.log().iter().filter(|l| l.key.verb == V::Write && l.key.path.starts_with("d/")).count();
+        head_done[k] = ctl.log().iter().position(|l| l.key.verb == V::Write && l.key.path.ends_with("/BANDHEAD")).map_or(0, |i| i + 1);
         crate::engine::force_remove(&w.arch);
         scen::copy_dir(&pristine, &w.arch);
     }
@@ -422,6 +425,27 @@ fn run_race(
                             faults: vec![RaceFault { actor: a, verb: Some(V::Write), prefix: "b".into(), nth, kind, freeze_torn: false }],
                         });
                     }
+                }
+            }
+        }
+    }
+    // ... and when the winner is caught between its head and its first hunk: the racer pauses
+    // after p operations, the other one runs until it has just written its BANDHEAD, the racer
+    // carries on (its own head write fails) to its end, then the other one finishes.
+    {
+        use crate::hooks::{Kind as EK, RaceFault};
+        for a in 0..2usize {
+            let w = 1 - a;
+            if head_done[w] == 0 {
+                continue;
+            }
+            let pauses = scen::thin(&points[a], cx.tier.pick(6, 12));
+            for kind in [EK::Other, EK::PermissionDenied, EK::NotFound, EK::Connect] {
+                for p in &pauses {
+                    runs.push(Inner {
+                        sch: Schedule(vec![(a as u8, *p), (w as u8, head_done[w] as u16), (a as u8, u16::MAX), (w as u8, u16::MAX)]),
+                        faults: vec![RaceFault { actor: a, verb: Some(V::Write), prefix: "b".into(), nth: 0, kind, freeze_torn: false }],
+                    });
                 }
             }
         }
@@ -823,7 +847,7 @@ pub fn prop() -> Prop<Case> {
     Prop {
         id: "C07",
         level: "exploration",
-        rule: "two generated case kinds. Hist: history as C02 with every storage operation logged together with the pre-state of its path and the directory snapshotted (bytes) before/after each step: per backup step (complete, interrupted, resumed) every pre-existing file is still there byte-identical (a zero-length leftover may be completed), the log has no write to a path that held >0 bytes, no path written twice, no remove, and the new id exceeds every id that existed; per delete/gc step removals are confined to requested version directories, blocks unreferenced by the kept versions (independent scan) and GC_LOCK, and nothing is modified or created; a third of the histories end with an epilogue (complete backup, one of its blocks cut to 1-3 bytes, the unchanged source backed up again: the damaged file must not be written over); plus the transport contract (CreateNew on an existing file fails and leaves it; of four CreateNew writes of one new path issued together exactly one succeeds and its bytes are what the file holds). Race: two backups of differing sources on one archive under the deterministic scheduler: all schedules with <=2 context switches over thinned switch points (quick 10 / thorough 40 per actor) + generated random schedules; every version's files are written by one actor only, nobody writes to an existing non-empty path, pre-existing files unchanged, and every backup that reports success has a closed version that restores to its own source. Non-trivial: history step over an archive that already has a band; race schedule in which both actors list the versions before either creates one. Race schedules distinct by construction, histories by case hash. The transport contract is probed with payloads up to 3 MiB; fixed scale probes per run: a race of two backups sharing a 3 MiB single-block file, and a gc on a 10 015-hunk version; since round 7 a third of the histories end with a backup while a collector's lock file last touched 5 s, 2 h, 3 days or 400 days ago lies in the archive (it may refuse; the file must stay as it is), and race runs also fail the racer's first writes into its version (head, first hunks) after the other racer ran; since round 9 the overlapping CreateNew writers also carry payloads of 2-7 MiB, and the faults on a racer's version writes include a connection-level error",
+        rule: "two generated case kinds. Hist: history as C02 with every storage operation logged together with the pre-state of its path and the directory snapshotted (bytes) before/after each step: per backup step (complete, interrupted, resumed) every pre-existing file is still there byte-identical (a zero-length leftover may be completed), the log has no write to a path that held >0 bytes, no path written twice, no remove, and the new id exceeds every id that existed; per delete/gc step removals are confined to requested version directories, blocks unreferenced by the kept versions (independent scan) and GC_LOCK, and nothing is modified or created; a third of the histories end with an epilogue (complete backup, one of its blocks cut to 1-3 bytes, the unchanged source backed up again: the damaged file must not be written over); plus the transport contract (CreateNew on an existing file fails and leaves it; of four CreateNew writes of one new path issued together exactly one succeeds and its bytes are what the file holds). Race: two backups of differing sources on one archive under the deterministic scheduler: all schedules with <=2 context switches over thinned switch points (quick 10 / thorough 40 per actor) + generated random schedules; every version's files are written by one actor only, nobody writes to an existing non-empty path, pre-existing files unchanged, and every backup that reports success has a closed version that restores to its own source. Non-trivial: history step over an archive that already has a band; race schedule in which both actors list the versions before either creates one. Race schedules distinct by construction, histories by case hash. The transport contract is probed with payloads up to 3 MiB; fixed scale probes per run: a race of two backups sharing a 3 MiB single-block file, and a gc on a 10 015-hunk version; since round 7 a third of the histories end with a backup while a collector's lock file last touched 5 s, 2 h, 3 days or 400 days ago lies in the archive (it may refuse; the file must stay as it is), and race runs also fail the racer's first writes into its version (head, first hunks) after the other racer ran; since round 9 the overlapping CreateNew writers also carry payloads of 2-7 MiB, and the faults on a racer's version writes include a connection-level error, and four-segment race runs in which the other backup has just written its BANDHEAD when the racer's own head write fails",
         assumptions: &[
             "interleavings are at transport-operation granularity on sequentially consistent local storage",
         ],
